@@ -104,8 +104,19 @@ Definition valid_node (n : snode) : bool :=
 Definition valid_obj (o : sobj) : bool :=
   match o with ONode n => valid_node n | OLit lex suf => forallb valid_item lex && valid_suffix suf end.
 
+(** the bytes of a lexical form are UTF-8: a continuation byte only follows a non-ASCII byte *)
+Fixpoint lex_utf8 (after_non_ascii : bool) (l : list item) : bool :=
+  match l with
+  | [] => true
+  | IChar c :: r => (negb (utf8_cont c) || after_non_ascii) && lex_utf8 (non_ascii c) r
+  | _ :: r => lex_utf8 false r
+  end.
+
+Definition obj_utf8 (o : sobj) : bool :=
+  match o with ONode _ => true | OLit lex _ => lex_utf8 false lex end.
+
 Definition valid_triple (t : striple) : bool :=
-  valid_node (t_s t) && valid_iri (t_p t) && valid_obj (t_o t).
+  valid_node (t_s t) && valid_iri (t_p t) && valid_obj (t_o t) && obj_utf8 (t_o t).
 
 Definition all_ws (s : str) : bool := forallb is_ws s.
 Definition comment_char (c : ascii) : bool := negb (one_of [10; 13] c).
